@@ -161,8 +161,9 @@ Print Assumptions C02_untied_table_counts_subsets.
    (highest rank first) are rev T -- or N1+N2 distinct values when T has no ties -- and EVERY item
    (u, PMF(u), CDF(u)) of the line, with w = floor(2u) (ties) resp. 2*floor(u) (no ties) and C = C(N1+N2,N1):
      |CDF - count_le z N1 w / C| <= tol_prob (= 1e-10)  for every real u   (count_le: #subsets with 2U <= w),
+     CDF = 0 exactly for u < 0  and  CDF = 1 exactly for u >= N1*N2,
      |PMF - count_eq z N1 w / C| <= tol_prob            for 0 <= u < N1*N2 + 1/2  (count_eq: #subsets with 2U = w),
-     |PMF| <= tol_prob                                   for u < 0 or u >= N1*N2 + 1/2.
+     PMF = 0 exactly                                     for u < 0 or u >= N1*N2 + 1/2.
    (Without ties and at a non-integer u the code answers for floor(u); the property speaks about the attainable
    points only, there w = 2u.)  The model's table functions do not occur: only observed numbers and Spec/Ucount.v. *)
 Theorem C02_check_ok_sound : forall line code tag pos diag (cs : case02),
